@@ -285,8 +285,39 @@ def sites_of(body):
     return out
 
 
+def _fallback_of_sized_conversion(prog, body):
+    """body is the closure given to `unwrap_or_else` on `vec.try_into()` whose target is [T; N] while the vector has length N on
+    every path from the last test of its length: the closure (`|_| unreachable!()`) never runs"""
+    if body.kind != 'Closure':
+        return None
+    for pb in prog.bodies.values():
+        if pb.path != body.raw.get('parent'):
+            continue
+        for bi, t in pb.calls():
+            if cname(callee_name(t)).split('::')[-1] != 'unwrap_or_else' or len(t['args']) != 2:
+                continue
+            cl, _ = util.closure_of_term(prog, pb.op_term(t['args'][1], (bi, None)))
+            if cl is None or cl.path != body.path:
+                continue
+            recv = strip(pb.op_term(t['args'][0], (bi, None)))
+            if not (isinstance(recv, tuple) and recv[0] == 'call' and cname(recv[1]) in ('TryInto::try_into', 'TryFrom::try_from')):
+                continue
+            m = re.search(r'\[.*; (\d+)\]', pb.local_ty(t['dest']['local']))
+            conv = [(cbi, ct) for cbi, ct in pb.calls() if ct['dest']['local'] == (t['args'][0].get('place') or {}).get('local') and not ct['dest']['proj']]
+            if m and len(conv) == 1:
+                vec = util._ref_root(pb, conv[0][1]['args'][0])
+                ls = util.lengths_reaching(pb, vec, conv[0][0]) if vec is not None else None
+                if ls is not None and ls == {int(m.group(1))}:
+                    return 'fallback of try_into().unwrap_or_else(..) on a vector whose length is %s on every path (pushes counted): never called' % m.group(1)
+    return None
+
+
 def discharge(prog, body, kind, bi, t, bounds):
     """Return a reason string if the site provably cannot panic, else None."""
+    if body.kind == 'Closure' and (kind.startswith('call:') and any(kind.endswith(x) or x in kind for x in PANIC_FNS)):
+        why = _fallback_of_sized_conversion(prog, body)
+        if why is not None:
+            return why
     if kind.startswith('assert:BoundsCheck'):
         c = strip(body.op_term(t['cond'], (bi, None)))
         if isinstance(c, tuple) and c[0] == 'bin' and c[1] == 'Lt':
